@@ -21,6 +21,12 @@ def names_in(node):
     return {n.id for n in ast.walk(node) if isinstance(n, ast.Name)}
 
 
+
+def cur_name(repo, old, module='pharmpy.internals.fs.lock'):
+    """the present name of a private function of the confirmed tree (it may have been renamed: sa/renames.py)"""
+    f = repo.module(module).functions.get(old)
+    return f.name if f is not None else old
+
 def run(chk, repo, tier):
     m = repo.module(MOD)
     rel = m.rel
@@ -138,7 +144,7 @@ def run(chk, repo, tier):
                     continue
                 touched = lf.fields_touched(n.id, expr) if isinstance(expr, ast.AST) else set()
                 calls = {dotted(x.func) for x in [expr, *walk_no_nested(expr)] if isinstance(x, ast.Call)}
-                if calls & {'_process_level_lock', '_process_level_unlock'}:
+                if calls & {cur_name(repo, '_process_level_lock'), cur_name(repo, '_process_level_unlock')}:
                     touched.add('<process-level lock call>')
                 if not touched or not lf.at(n.id):
                     continue
@@ -431,7 +437,7 @@ def run(chk, repo, tier):
     cfg = lf.cfg
     sfields = sorted(class_guarded_fields(spl, class_lock_attrs(spl)))
     unlocks = [n for n in cfg.nodes.values() if n.ast is not None and n.kind == 'stmt' and any(
-        isinstance(x, ast.Call) and dotted(x.func) == '_process_level_unlock' for x in [n.ast, *walk_no_nested(n.ast)])]
+        isinstance(x, ast.Call) and dotted(x.func) == cur_name(repo, '_process_level_unlock') for x in [n.ast, *walk_no_nested(n.ast)])]
     if not unlocks:
         raise AnalysisError('L9: no _process_level_unlock call in ShareableProcessLock.lock')
     assigns = [n for n in cfg.nodes.values() if isinstance(n.ast, ast.Assign) and len(n.ast.targets) == 1
@@ -733,7 +739,7 @@ def run_l10_l11(chk, repo):
             if nd.ast is None or nd.kind not in ('stmt',) or nd.id not in after or nd.id in before:
                 continue
             for c in ast.walk(nd.ast):
-                if isinstance(c, ast.Call) and dotted(c.func) == '_process_level_lock':
+                if isinstance(c, ast.Call) and dotted(c.func) == cur_name(repo, '_process_level_lock'):
                     n10 += 1
                     vals = {}
                     for i, a in enumerate(c.args[1:], start=1):
@@ -798,7 +804,7 @@ def run_l12(chk, repo):
             and isinstance(n.targets[0], ast.Name) and isinstance(n.value, ast.BoolOp)}
     guard = None
     for I in [x for x in walk_no_nested(f.node) if isinstance(x, ast.If)]:
-        if any(isinstance(c, ast.Call) and dotted(c.func) == '_process_level_lock' and len(c.args) >= 2
+        if any(isinstance(c, ast.Call) and dotted(c.func) == cur_name(repo, '_process_level_lock') and len(c.args) >= 2
                and isinstance(c.args[1], ast.Name) for s_ in I.body for c in ast.walk(s_)) \
                 and 'is_held' in unparse(I.test):
             guard = I
@@ -846,7 +852,11 @@ def run_l13(chk, repo):
         for c in dict.values(m.classes):
             r, w = c.methods.get('_read_lock'), c.methods.get('_write_lock')
             if r is None or w is None:
-                continue
+                # the helpers may have been folded into their only callers: the reader / writer entry points themselves
+                r, w = c.methods.get('snapshot'), c.methods.get('transaction')
+                if r is None or w is None or not all(any(isinstance(x, ast.Call) and (dotted(x.func) or '').endswith('path_lock')
+                                                         for x in ast.walk(f_.node)) for f_ in (r, w)):
+                    continue
             texts = {}
             for nm, f in (('read', r), ('write', w)):
                 cfg = CFG(f.node)
